@@ -278,6 +278,7 @@ type vCtr struct {
 	milli    int64 // CPU request
 	limit    int64 // CPU limit (milli), 0 = none
 	mem      int64 // memory limit, 0 = none
+	baseMems string // cpuset.mems the runtime created the container with ("" = none)
 	swapK    int   // memory+swap limit: 0 none, 1 equal to the memory limit (no swap), 2 larger (limited swap)
 	state    api.ContainerState
 }
@@ -309,6 +310,9 @@ func (c *vCtr) nri() *api.Container {
 	if lim > 0 {
 		q, p := kubernetes.MilliCPUToQuota(lim)
 		res.Cpu.Quota, res.Cpu.Period = api.Int64(q), api.UInt64(uint64(p))
+	}
+	if c.baseMems != "" {
+		res.Cpu.Mems = c.baseMems
 	}
 	if c.mem > 0 {
 		res.Memory.Limit = api.Int64(c.mem)
@@ -425,6 +429,9 @@ func vGenCtr(rng *rand.Rand, p *vPod, n int, machineCPUs int) *vCtr {
 	}
 	if rng.Intn(20) == 0 && !p.announced {
 		p.ann["memory.preserve."+vKey+"/container."+c.name] = "true"
+		if len(vMemNodes) > 0 && rng.Intn(2) == 0 {
+			c.baseMems = strconv.Itoa(vMemNodes[rng.Intn(len(vMemNodes))])
+		}
 	}
 	if vMemHeavy && len(vNodeMem) > 0 {
 		// memory-pressure histories: requests sized relative to a NUMA node, so that zones get
@@ -436,6 +443,9 @@ func vGenCtr(rng *rand.Rand, p *vPod, n int, machineCPUs int) *vCtr {
 			}
 		}
 		if rng.Intn(3) == 0 && !p.announced {
+			if len(vMemNodes) > 0 && rng.Intn(2) == 0 {
+				c.baseMems = strconv.Itoa(vMemNodes[rng.Intn(len(vMemNodes))])
+			}
 			p.ann["memory.preserve."+vKey+"/container."+c.name] = "true"
 		}
 	}
@@ -445,6 +455,7 @@ func vGenCtr(rng *rand.Rand, p *vPod, n int, machineCPUs int) *vCtr {
 // per-history generator mode (set by TestVerifTAHistories)
 var (
 	vMemHeavy bool
+	vMemNodes []int // ids of the memory nodes of the current machine
 	vNodeMem  []int64
 	vRestarts bool // histories with plugin restarts (C11)
 	vBalloonAnn bool // pods may carry balloons-policy annotations (balloon type, hide-hyperthreads)
@@ -674,6 +685,26 @@ func (h *vHarness) vAfter(w *bufio.Writer) {
 	h.vSnapshot(w)
 }
 
+// vRootFreeMilli: shared CPU capacity the topology-aware root pool can still promise (1000 per free sharable CPU
+// minus what is granted in its subtree); -1 if unknown
+func (h *vHarness) vRootFreeMilli() int {
+	for _, l := range topologyaware.VerifSnapshot(h.backend) {
+		f := strings.Fields(l)
+		if len(f) == 12 && f[0] == "PN" && f[2] == "-" {
+			n := 0
+			if f[7] != "-" {
+				n = len(strings.Split(f[7], "+"))
+			}
+			ss, err := strconv.Atoi(f[10])
+			if err != nil {
+				return -1
+			}
+			return 1000*n - ss
+		}
+	}
+	return -1
+}
+
 func (h *vHarness) createCtr(w *bufio.Writer, c *vCtr) string {
 	ctx := context.Background()
 	c.state = api.ContainerState_CONTAINER_CREATED
@@ -740,8 +771,13 @@ func (h *vHarness) vRunHistory(w *bufio.Writer, rng *rand.Rand, wd *vWorld, nEve
 				delete(p.ann, k)
 			}
 			c.mem, c.milli, c.limit = mem, 100, 0
+			c.baseMems = ""
 			if preserve {
 				p.ann["memory.preserve."+vKey+"/container."+c.name] = "true"
+				// half of them come with a memory set of their own (the value to be preserved)
+				if len(vMemNodes) > 0 && rng.Intn(2) == 0 {
+					c.baseMems = strconv.Itoa(vMemNodes[rng.Intn(len(vMemNodes))])
+				}
 			}
 			wd.ctrs[c.id] = c
 			p.announced = true
@@ -779,7 +815,34 @@ func (h *vHarness) vRunHistory(w *bufio.Writer, rng *rand.Rand, wd *vWorld, nEve
 				wd.nPod++
 				wd.pods[p.id] = p
 			}
+			// capacity squeeze (topology-aware): now and then fill the machine's shared capacity up to a remainder between one
+			// and one and a half CPUs, then ask for a mixed grant (1 exclusive CPU + 500m): the exclusive CPU can be sliced off
+			// but the fraction does not fit any more - the request must fail without leaving a trace
+			squeeze := false
+			if h.polName == "topology-aware" && !malformed && rng.Intn(10) == 0 {
+				if free := h.vRootFreeMilli(); free >= 2600 {
+					fp := &vPod{id: fmt.Sprintf("p%d", wd.nPod), name: fmt.Sprintf("pod%d", wd.nPod), ns: "default", qos: "Burstable", ann: map[string]string{}, announced: true}
+					wd.nPod++
+					wd.pods[fp.id] = fp
+					fc := &vCtr{id: fmt.Sprintf("c%d", wd.nCtr), name: fmt.Sprintf("ctr%d", wd.nCtr), pod: fp, milli: int64(free - 1100 - rng.Intn(390))}
+					wd.nCtr++
+					wd.ctrs[fc.id] = fc
+					h.simple(w, "runpod "+fp.id+" "+fp.ns+" "+fp.qos, func() ([]*api.ContainerUpdate, error) { return nil, h.m.nri.RunPodSandbox(ctx, fp.nri()) })
+					if res := h.createCtr(w, fc); strings.HasPrefix(res, "ok") {
+						squeeze = true
+						p = &vPod{id: fmt.Sprintf("p%d", wd.nPod), name: fmt.Sprintf("pod%d", wd.nPod), ns: "default", qos: "Guaranteed", ann: map[string]string{}}
+						wd.nPod++
+						wd.pods[p.id] = p
+					} else {
+						h.simple(w, "remove "+fc.id, func() ([]*api.ContainerUpdate, error) { return nil, h.m.nri.RemoveContainer(ctx, fc.pod.nri(), fc.nri()) })
+						delete(wd.ctrs, fc.id)
+					}
+				}
+			}
 			c := vGenCtr(rng, p, wd.nCtr, machineCPUs)
+			if squeeze {
+				c.milli, c.limit, c.mem = 1500, 0, 0
+			}
 			wd.nCtr++
 			wd.ctrs[c.id] = c
 			if !p.announced {
@@ -1100,12 +1163,13 @@ func TestVerifTAHistories(t *testing.T) {
 		fmt.Fprintf(w, "E init\nR ok - -\n")
 		h.vAfter(w)
 		wd := &vWorld{pods: map[string]*vPod{}, ctrs: map[string]*vCtr{}}
-		vMemHeavy, vNodeMem = i%2 == 1, nil
+		vMemHeavy, vNodeMem, vMemNodes = i%2 == 1, nil, nil
 		vRestarts = os.Getenv("VERIF_RESTARTS") == "1"
 		vCfgChanges = os.Getenv("VERIF_CFGCHANGES") == "1"
 		for _, nd := range m.Nodes {
 			if nd.HasMemory && nd.MemTotal > 0 {
 				vNodeMem = append(vNodeMem, int64(nd.MemTotal)*1024)
+				vMemNodes = append(vMemNodes, nd.ID)
 			}
 		}
 		h.vRunHistory(w, rng, wd, 8+rng.Intn(40), len(m.Online()), i%4 == 3)
@@ -1222,7 +1286,14 @@ func TestVerifBAHistories(t *testing.T) {
 		fmt.Fprintf(w, "E init\nR ok - -\n")
 		h.vAfter(w)
 		wd := &vWorld{pods: map[string]*vPod{}, ctrs: map[string]*vCtr{}}
-		vMemHeavy, vNodeMem = false, nil
+		// every third balloons history is a memory-pressure one (zones get overcommitted, the allocator widens zones)
+		vMemHeavy, vNodeMem, vMemNodes = i%3 == 1, nil, nil
+		for _, nd := range m.Nodes {
+			if nd.HasMemory && nd.MemTotal > 0 {
+				vNodeMem = append(vNodeMem, int64(nd.MemTotal)*1024)
+				vMemNodes = append(vMemNodes, nd.ID)
+			}
+		}
 		vRestarts = os.Getenv("VERIF_RESTARTS") == "1"
 		vCfgChanges = os.Getenv("VERIF_CFGCHANGES") == "1"
 		vBalloonAnn = true
